@@ -1,12 +1,310 @@
-//! Family `asset`: C18 — asset binaries.  (stub)
-#![allow(unused)]
+//! Family `asset`: C18 — asset binaries.
+//! Case line: `<id> asset <header-flags> p:<name>,<s1>,…,<s33>,<t34>,…,<t51>*`
+//! strings: `~` absent, `-` empty, else hex of UTF-8; typed field: `0|1` (use flag) + 8 hex digits
+//! (the value's four bytes: u32 / f32 bits little-endian, colour array as is).
+//! Output: as for `aset`; the value is `<flags>/p:…/p:…`.
+//!
+//! The table below maps the 51 *named* fields of `AssetSpec` to the field indices of the model,
+//! independently of the model: a swapped, mis-sized or mis-flagged field in the Rust shows as a diff.
 use crate::util::*;
+use mila::{AssetBinary, AssetSpec, BinArchive, Endian};
 
-pub fn gen(_seed: u64, _tier: &str) -> Vec<String> {
-    Vec::new()
+fn str_field(s: &mut AssetSpec, i: usize) -> &mut Option<String> {
+    match i {
+        1 => &mut s.conditional1,
+        2 => &mut s.conditional2,
+        3 => &mut s.body_model,
+        4 => &mut s.body_texture,
+        5 => &mut s.head_model,
+        6 => &mut s.head_texture,
+        7 => &mut s.hair_model,
+        8 => &mut s.hair_texture,
+        9 => &mut s.outer_clothing_model,
+        10 => &mut s.outer_clothing_texture,
+        11 => &mut s.underwear_model,
+        12 => &mut s.underwear_texture,
+        13 => &mut s.mount_model,
+        14 => &mut s.mount_texture,
+        15 => &mut s.mount_outer_clothing_model,
+        16 => &mut s.mount_outer_clothing_texture,
+        17 => &mut s.weapon_model_dual,
+        18 => &mut s.weapon_model,
+        19 => &mut s.skeleton,
+        20 => &mut s.mount_skeleton,
+        21 => &mut s.accessory1_model,
+        22 => &mut s.accessory1_texture,
+        23 => &mut s.accessory2_model,
+        24 => &mut s.accessory2_texture,
+        25 => &mut s.accessory3_model,
+        26 => &mut s.accessory3_texture,
+        27 => &mut s.attack_animation,
+        28 => &mut s.attack_animation2,
+        29 => &mut s.visual_effect,
+        30 => &mut s.hid,
+        31 => &mut s.footstep_sound,
+        32 => &mut s.clothing_sound,
+        33 => &mut s.voice,
+        _ => panic!("string field {}", i),
+    }
+}
+
+/// Typed field `i` (34..=51) as (use flag, four bytes).
+fn get_val(s: &AssetSpec, i: usize) -> (bool, [u8; 4]) {
+    match i {
+        34 => (s.use_hair_color, s.hair_color),
+        35 => (s.use_skin_color, s.skin_color),
+        36 => (s.use_weapon_trail_color, s.weapon_trail_color),
+        37 => (s.use_model_size, s.model_size.to_bits().to_le_bytes()),
+        38 => (s.use_head_size, s.head_size.to_bits().to_le_bytes()),
+        39 => (s.use_pupil_y, s.pupil_y.to_bits().to_le_bytes()),
+        40 => (s.use_unk3, s.unk3.to_le_bytes()),
+        41 => (s.use_unk4, s.unk4.to_le_bytes()),
+        42 => (s.use_unk5, s.unk5.to_le_bytes()),
+        43 => (s.use_unk6, s.unk6.to_le_bytes()),
+        44 => (s.use_bitflags, s.bitflags),
+        45 => (s.use_unk7, s.unk7.to_le_bytes()),
+        46 => (s.use_unk8, s.unk8.to_le_bytes()),
+        47 => (s.use_unk9, s.unk9.to_le_bytes()),
+        48 => (s.use_unk10, s.unk10.to_le_bytes()),
+        49 => (s.use_unk11, s.unk11.to_le_bytes()),
+        50 => (s.use_unk12, s.unk12.to_le_bytes()),
+        51 => (s.use_unk13, s.unk13.to_le_bytes()),
+        _ => panic!("typed field {}", i),
+    }
+}
+
+fn set_val(s: &mut AssetSpec, i: usize, u: bool, b: [u8; 4]) {
+    let w = u32::from_le_bytes(b);
+    let f = f32::from_bits(w);
+    match i {
+        34 => { s.use_hair_color = u; s.hair_color = b }
+        35 => { s.use_skin_color = u; s.skin_color = b }
+        36 => { s.use_weapon_trail_color = u; s.weapon_trail_color = b }
+        37 => { s.use_model_size = u; s.model_size = f }
+        38 => { s.use_head_size = u; s.head_size = f }
+        39 => { s.use_pupil_y = u; s.pupil_y = f }
+        40 => { s.use_unk3 = u; s.unk3 = w }
+        41 => { s.use_unk4 = u; s.unk4 = w }
+        42 => { s.use_unk5 = u; s.unk5 = w }
+        43 => { s.use_unk6 = u; s.unk6 = w }
+        44 => { s.use_bitflags = u; s.bitflags = b }
+        45 => { s.use_unk7 = u; s.unk7 = w }
+        46 => { s.use_unk8 = u; s.unk8 = w }
+        47 => { s.use_unk9 = u; s.unk9 = w }
+        48 => { s.use_unk10 = u; s.unk10 = w }
+        49 => { s.use_unk11 = u; s.unk11 = w }
+        50 => { s.use_unk12 = u; s.unk12 = w }
+        51 => { s.use_unk13 = u; s.unk13 = w }
+        _ => panic!("typed field {}", i),
+    }
+}
+
+fn show_opt(n: &Option<String>) -> String {
+    match n {
+        None => "~".to_string(),
+        Some(s) => hexs(s),
+    }
+}
+fn opt_of(s: &str) -> Option<String> {
+    if s == "~" {
+        None
+    } else {
+        Some(unhexs(s))
+    }
+}
+
+fn show_spec(s: &AssetSpec) -> String {
+    let mut s = s.clone();
+    let mut parts = vec![show_opt(&s.name)];
+    for i in 1..=33 {
+        parts.push(show_opt(str_field(&mut s, i)));
+    }
+    for i in 34..=51 {
+        let (u, b) = get_val(&s, i);
+        parts.push(format!("{}{:02x}{:02x}{:02x}{:02x}", if u { 1 } else { 0 }, b[0], b[1], b[2], b[3]));
+    }
+    format!("p:{}", parts.join(","))
+}
+
+fn spec_of(text: &str) -> AssetSpec {
+    let parts: Vec<&str> = text[2..].split(',').collect();
+    let mut s = AssetSpec::new();
+    s.name = opt_of(parts[0]);
+    for i in 1..=33 {
+        *str_field(&mut s, i) = opt_of(parts[i]);
+    }
+    for i in 34..=51 {
+        let t = parts[i];
+        let b = unhex(&t[1..]);
+        set_val(&mut s, i, &t[0..1] == "1", [b[0], b[1], b[2], b[3]]);
+    }
+    s
+}
+
+fn show_binary(b: &AssetBinary) -> String {
+    let mut parts = vec![b.flags.to_string()];
+    for s in &b.specs {
+        parts.push(show_spec(s));
+    }
+    parts.join("/")
+}
+
+const F32_BITS: [u32; 12] = [
+    0, 0x8000_0000, 0x3F80_0000, 0x7F80_0000, 0xFF80_0000, 0x7FC0_0000, 0x7FC0_0001, 0x7F80_0001,
+    0xFFC1_2345, 0x7FFF_FFFF, 0x0000_0001, 0x3DCC_CCCD,
+];
+
+fn rand_bytes4(rng: &mut Rng, i: usize) -> [u8; 4] {
+    if (37..=39).contains(&i) && rng.chance(1, 2) {
+        return rng.pick(&F32_BITS).to_le_bytes();
+    }
+    match rng.below(6) {
+        0 => [0, 0, 0, 0],
+        1 => [0xFF, 0xFF, 0xFF, 0xFF],
+        2 => [1, 2, 3, 4],
+        _ => {
+            let b = rng.bytes(4);
+            [b[0], b[1], b[2], b[3]]
+        }
+    }
+}
+
+fn rand_string(rng: &mut Rng) -> String {
+    super::aset::rand_name(rng)
+}
+
+/// A spec whose present fields are exactly `present` (indices 1..=51).
+fn make_spec(rng: &mut Rng, present: &dyn Fn(usize) -> bool) -> AssetSpec {
+    let mut s = AssetSpec::new();
+    s.name = match rng.below(5) {
+        0 => None,
+        1 => Some(String::new()),
+        _ => Some(rand_string(rng)),
+    };
+    for i in 1..=33 {
+        if present(i) {
+            *str_field(&mut s, i) = Some(rand_string(rng));
+        }
+    }
+    for i in 34..=51 {
+        let u = present(i);
+        // an unused field may still carry a value in the struct (it is not written)
+        let b = if u || rng.chance(1, 3) { rand_bytes4(rng, i) } else { [0, 0, 0, 0] };
+        set_val(&mut s, i, u, b);
+    }
+    s
+}
+
+fn rand_spec(rng: &mut Rng) -> AssetSpec {
+    let mode = rng.below(8);
+    let mask: u64 = rng.next();
+    let lo = rng.range(1, 51) as usize;
+    let hi = rng.range(lo as u64, 51) as usize;
+    let f = move |i: usize| -> bool {
+        match mode {
+            0 => false,
+            1 => true,
+            2 => mask & (1 << i) != 0,
+            3 => i <= 31 && mask & (1 << i) != 0,           // short form only
+            4 => i >= 32 && mask & (1 << i) != 0,           // extended fields only
+            5 => i >= lo && i <= hi,                         // a run of fields
+            6 => mask & (mask >> 7) & (1 << i) != 0,         // sparse
+            _ => mask & (1 << i) != 0 || i == lo,
+        }
+    };
+    make_spec(rng, &f)
+}
+
+pub fn gen(seed: u64, tier: &str) -> Vec<String> {
+    let mut rng = Rng::new(seed ^ 0xC18);
+    let thorough = tier == "thorough";
+    let mut lines: Vec<String> = Vec::new();
+    let mut push = |lines: &mut Vec<String>, flags: u32, specs: &[AssetSpec]| {
+        let mut s = format!("c18.{:06} asset {}", lines.len(), flags);
+        for sp in specs {
+            s.push(' ');
+            s.push_str(&show_spec(sp));
+        }
+        lines.push(s);
+    };
+    // no spec at all; header flag values
+    for fl in [0u32, 1, 0x100, 0x8000_0000, 0xFFFF_FFFF] {
+        push(&mut lines, fl, &[]);
+    }
+    // all absent / all present
+    let none = make_spec(&mut rng, &|_| false);
+    let all = make_spec(&mut rng, &|_| true);
+    push(&mut lines, 0, &[none.clone()]);
+    push(&mut lines, 7, &[all.clone()]);
+    push(&mut lines, 7, &[none.clone(), all.clone(), none.clone(), all.clone()]);
+    // every single field alone; alone and followed by a second record; with its successor;
+    // everything but this field
+    for i in 1..=51usize {
+        let one = make_spec(&mut rng, &|k| k == i);
+        push(&mut lines, rng.next() as u32, &[one.clone()]);
+        let other = rand_spec(&mut rng);
+        push(&mut lines, 0, &[one, other]);
+        let two = make_spec(&mut rng, &|k| k == i || k == i + 1);
+        push(&mut lines, 1, &[two]);
+        let but = make_spec(&mut rng, &|k| k != i);
+        push(&mut lines, 2, &[but]);
+        if thorough {
+            for j in (i + 1)..=51 {
+                let pair = make_spec(&mut rng, &|k| k == i || k == j);
+                push(&mut lines, 3, &[pair]);
+            }
+        }
+    }
+    // random binaries
+    let count = if thorough { 6000 } else { 1000 };
+    for _ in 0..count {
+        let flags = match rng.below(4) {
+            0 => 0,
+            1 => 0xFFFF_FFFF,
+            _ => rng.next() as u32,
+        };
+        let n = *rng.pick(&[0usize, 1, 1, 2, 3, 4, 6]);
+        let specs: Vec<AssetSpec> = (0..n).map(|_| rand_spec(&mut rng)).collect();
+        push(&mut lines, flags, &specs);
+    }
+    lines
 }
 
 pub fn run_line(_st: &mut super::State, line: &str) -> String {
-    let id = line.split(' ').next().unwrap_or("?");
-    format!("{} unimplemented", id)
+    let f: Vec<&str> = line.split(' ').collect();
+    let id = f[0];
+    let binary = AssetBinary {
+        flags: f[2].parse().unwrap(),
+        specs: f[3..].iter().map(|s| spec_of(s)).collect(),
+    };
+    let out = match no_panic(|| binary.serialize()) {
+        Err(_) => "panic".to_string(),
+        Ok(Err(_)) => "err".to_string(),
+        Ok(Ok(bytes)) => match no_panic(|| BinArchive::from_bytes(&bytes, Endian::Little)) {
+            Err(_) => format!("ok ? {} rr-panic", hex(&bytes)),
+            Ok(Err(_)) => format!("ok ? {} rr-err", hex(&bytes)),
+            Ok(Ok(archive)) => {
+                let head = format!("ok {} {}", archive.size(), hex(&bytes));
+                match no_panic(|| AssetBinary::from_archive(&archive)) {
+                    Err(_) => format!("{} rr-panic", head),
+                    Ok(Err(_)) => format!("{} rr-err", head),
+                    Ok(Ok(again)) => {
+                        let re = match no_panic(|| again.serialize()) {
+                            Err(_) => "panic".to_string(),
+                            Ok(Err(_)) => "err".to_string(),
+                            Ok(Ok(b2)) => {
+                                if b2 == bytes {
+                                    "same".to_string()
+                                } else {
+                                    hex(&b2)
+                                }
+                            }
+                        };
+                        format!("{} rr-ok {} {}", head, show_binary(&again), re)
+                    }
+                }
+            }
+        },
+    };
+    format!("{} {}", id, out)
 }
